@@ -164,41 +164,43 @@ Theorem sens_spec_from_shape : ∀ c SC x (E : gset string) T,
   sens_spec c x (elements E) (elements (startpoints T)) T.
 Proof. exact sens_spec_of_shape. Qed.
 Print Assumptions sens_spec_from_shape.
-(* ... and for the model's sensitization circuit (certificate of T as hypotheses, checked per recorded circuit) *)
+(* ... and for the MODEL's sensitization circuit, all inputs: its certificate (closed, acyclic, free nodes = startpoints = the
+   inputs of the mitered sub-circuit) is proved, so no hypothesis about T is left *)
+Theorem sensitization_certificate : ∀ SC n M g,
+  comb (c_g SC) → n ∈ dom (c_g SC) → miter_self SC = Ok M → flip_node (c_g M) n = Ok g →
+  closed g ∧ acyclic g ∧ free_nodes g = inputs (c_g SC) ∧ startpoints g = inputs (c_g SC).
+Proof. exact sens_model_cert. Qed.
+Print Assumptions sensitization_certificate.
 Theorem sens_spec_from_model : ∀ C n Eo T,
   c_bbs C = ∅ → comb (c_g C) → n ∈ dom (c_g C) → sensitization_transform C n Eo = Ok T →
-  closed (c_g T) → acyclic (c_g T) → free_nodes (c_g T) = startpoints (c_g T) → startpoints (c_g T) = inputs (sens_sub C Eo).1 →
+  startpoints (c_g T) = inputs (sens_sub C Eo).1 ∧
   sens_spec (c_g C) n (elements (sens_sub C Eo).2) (elements (startpoints (c_g T))) (c_g T).
-Proof. exact sens_spec_of_model. Qed.
+Proof. exact sens_spec_model. Qed.
 Print Assumptions sens_spec_from_model.
 (* why influence may use the sensitization circuit of (startpoint s, endpoint n) *)
 Theorem invert_input_is_flip : ∀ c s n ρ i, c !! s = Some i → n_ty i = Input → n_fi i = ∅ → sens_at c s [n] ρ ↔ flips c n s ρ.
 Proof. exact sens_at_input. Qed.
 Print Assumptions invert_input_is_flip.
 
-Definition sens_circuits_ok (C : Circuit) (n : string) : Prop :=
-  ∀ s T, s ∈ cone_startpoints (c_g C) n → sensitization_transform C s (Some [n]) = Ok T →
-    (∃ i, c_g C !! s = Some i ∧ n_ty i = Input ∧ n_fi i = ∅) ∧
-    sens_spec (c_g C) s [n] (elements (cone_startpoints (c_g C) n)) (c_g T).
-Theorem influence_spec : ∀ mc C n out, mc_exact mc → sens_circuits_ok C n → influence mc C n = Ok out →
+(* props.influence / avg_sensitivity (exact mode) and props.sensitize on the model's circuits, all inputs; the only hypotheses
+   left are about the external counter / solver *)
+Theorem influence_spec : ∀ mc C n out, mc_exact mc → c_bbs C = ∅ → comb (c_g C) → influence mc C n = Ok out →
   out = (λ s, (s, influence_def (c_g C) n (elements (cone_startpoints (c_g C) n)) s)) <$> elements (cone_startpoints (c_g C) n).
-Proof. exact influence_model_spec. Qed.
+Proof. exact influence_model_full. Qed.
 Print Assumptions influence_spec.
-Theorem avg_sensitivity_spec : ∀ mc C n a, mc_exact mc → sens_circuits_ok C n → avg_sensitivity mc C n = Ok a →
+Theorem avg_sensitivity_spec : ∀ mc C n a, mc_exact mc → c_bbs C = ∅ → comb (c_g C) → avg_sensitivity mc C n = Ok a →
   a = avg_sensitivity_def (c_g C) n (elements (cone_startpoints (c_g C) n)).
-Proof. exact avg_sensitivity_model_spec. Qed.
+Proof. exact avg_sensitivity_model_full. Qed.
 Print Assumptions avg_sensitivity_spec.
-Theorem sensitize_spec : ∀ (solve : circuit → list (string * bool) → option val) C n E sp T r,
+Theorem sensitize_spec : ∀ (solve : circuit → list (string * bool) → option val) C n r,
   (∀ g asm v, solve g asm = Some v → consistent g v ∧ Forall (λ p : string * bool, v p.1 = p.2) asm) →
   (∀ g asm, solve g asm = None → ¬ ∃ v, consistent g v ∧ Forall (λ p : string * bool, v p.1 = p.2) asm) →
-  sensitization_transform C n None = Ok T → sens_spec (c_g C) n E sp (c_g T) →
-  sensitize solve C n = Ok r →
+  c_bbs C = ∅ → comb (c_g C) → n ∈ dom (c_g C) → sensitize solve C n = Ok r →
   match r with
-  | Some μ => (fst <$> μ) = elements (startpoints (c_g T)) ∧
-              ∃ ρ : val, Forall (λ p : string * bool, ρ p.1 = p.2) μ ∧ sens_at (c_g C) n E ρ
-  | None => ∀ ρ, ¬ sens_at (c_g C) n E ρ
+  | Some μ => ∃ ρ : val, Forall (λ p : string * bool, ρ p.1 = p.2) μ ∧ sens_at (c_g C) n (elements (outputs (c_g C))) ρ
+  | None => ∀ ρ, ¬ sens_at (c_g C) n (elements (outputs (c_g C))) ρ
   end.
-Proof. exact sensitize_model_spec. Qed.
+Proof. exact sensitize_model_full. Qed.
 Print Assumptions sensitize_spec.
 
 (* ---- trusted-base reducers ---- *)
@@ -258,15 +260,11 @@ Proof. exists "o". split; [by left|]. vm_compute. discriminate. Qed.
 (* the model's output has the shape, and the recorded-output checker accepts it *)
 Example ex_shape : sens_shape (c_g ex_c) "g" {[ "o" ]} ex_T.
 Proof. apply sens_shapeb_sound. vm_compute. reflexivity. Qed.
-(* the hypotheses of influence_spec / sensitize_spec hold for this circuit: sens_spec from the model and the certificate *)
+(* the sensitization circuit of this example meets the specification the props functions need, certificate included *)
 Example ex_sens_spec : sens_spec (c_g ex_c) "g" (elements (sens_sub ex_c None).2) (elements (startpoints ex_T)) ex_T.
 Proof.
   assert (Hn : "g" ∈ dom (c_g ex_c)) by (apply elem_of_dom; eexists; vm_compute; reflexivity).
   apply (sens_spec_from_model ex_c "g" None ex_TC eq_refl ex_comb Hn ex_accepted).
-  - apply closedb_spec; vm_compute; reflexivity.
-  - apply acyclicb_sound; vm_compute; reflexivity.
-  - by_bool.
-  - by_bool.
 Qed.
 
 (* the sensitivity circuit of g = not a, with popcount(1) = (in_0 -> out_0) *)
